@@ -32,6 +32,8 @@ fn main() {
             let mut rng = Rng::new(seed ^ gen::driver_salt(&driver));
             let mut st = ops::State::default();
             let mut g = gen::Gen::new(&driver, &extra);
+            // distinct inputs: non-trivial cases are counted once per distinct input
+            let mut seen: std::collections::HashSet<u64> = std::collections::HashSet::new();
             for i in 0..n {
                 let Some((op, input)) = g.next(&mut rng, i) else { break };
                 *cur2.lock().unwrap() = json!({"op": op, "in": input}).to_string();
@@ -40,7 +42,10 @@ fn main() {
                     Some(o) => { let v = o.obs.clone(); res = Some(o); v }
                     None => Value::Null,
                 });
-                let (evals, nontrivial) = res.as_ref().map(|o| (o.evals, o.nontrivial)).unwrap_or((1, 0));
+                let (evals, mut nontrivial) = res.as_ref().map(|o| (o.evals, o.nontrivial)).unwrap_or((1, 0));
+                if nontrivial > 0 && !seen.insert(pkgsrc_conform::util::hash64(&format!("{}{}", op, input))) {
+                    nontrivial = 0;
+                }
                 // "abnormal": the call panicked (a hang is recorded by the watchdog below)
                 let abnormal = obs.get("panic").is_some();
                 let rec = json!({"op": op, "in": input, "out": obs, "abnormal": if abnormal { "T" } else { "F" }});
